@@ -126,6 +126,7 @@ func Load(root string, extraEnv ...string) *World {
 		byName: map[string]*FuncInfo{},
 	}
 	env := goEnv(extraEnv...)
+	posFset = w.Fset // positions compared while loading (role fallbacks) are this world's
 	rootPkgs := loadModule(w.Fset, root, env, "./...")
 	for _, p := range rootPkgs {
 		switch p.PkgPath {
@@ -308,7 +309,7 @@ func (w *World) Within(fi *FuncInfo, depth int) []*FuncInfo {
 				next = append(next, t)
 			}
 		}
-		sort.Slice(next, func(i, j int) bool { return next[i].Decl.Pos() < next[j].Decl.Pos() })
+		sort.Slice(next, func(i, j int) bool { return posLess(next[i].Decl.Pos(), next[j].Decl.Pos()) })
 		out = append(out, next...)
 		frontier = next
 	}
@@ -498,7 +499,7 @@ func (w *World) FuncsOf(p *packages.Package) []*FuncInfo {
 			out = append(out, fi)
 		}
 	}
-	sort.Slice(out, func(i, j int) bool { return out[i].Decl.Pos() < out[j].Decl.Pos() })
+	sort.Slice(out, func(i, j int) bool { return posLess(out[i].Decl.Pos(), out[j].Decl.Pos()) })
 	return out
 }
 
